@@ -6,6 +6,7 @@ import (
 
 	"verifharness/internal/core"
 	"verifharness/internal/engine"
+	"verifharness/internal/sgen"
 )
 
 func isASCII(s string) bool {
@@ -29,7 +30,7 @@ func docHasNonASCII(doc string) bool { return !isASCII(doc) }
 
 func init() {
 	register("C06", func(c *engine.Ctx) {
-		c.Rule = "one string field per program: {minLength,maxLength,pattern} presence x position (required/optional/nullable/definition/nested) x strings of length limit-1, limit, limit+1 in ASCII and in 2-, 3-, 4-byte characters x matching / non-matching text for each pattern form; plus absent and null. The reference verdict is judged on ASCII documents (scope F06; byte counting is known finding K1), model = implementation on all. Distinct = distinct (labels, reference verdict, real verdict, document shape)."
+		c.Rule = "one string field per program: {minLength,maxLength,pattern} presence x position (required/optional/nullable/definition/nested) x strings of length limit-1, limit, limit+1 in ASCII and in 2-, 3-, 4-byte characters x matching / non-matching text for each pattern form; plus absent and null; plus limits under composition: a definition with ONE limit on an array property used as an earlier allOf / anyOf branch (by $ref or inline) while a later branch puts the OTHER limit on the same property — decoding 0..5 elements into the definition's own type (or the anyOf branch type) must apply its own limit only, and the composed position what the reference says. The reference verdict is judged on ASCII documents (scope F06; byte counting is known finding K1), model = implementation on all. Distinct = distinct (labels, reference verdict, real verdict, document shape)."
 		c.Proofs([]string{"GJS.Props.C06"}, []string{
 			"GJS.Props.C06.ascii_bytes_eq_length", "GJS.Props.C06.string_check_exact_ascii", "GJS.Props.C06.string_check_exact_pattern_only",
 			"GJS.Props.C06.absent_or_null_unchecked", "GJS.Props.C06.present_checked", "GJS.Props.C06.KF_bytes_counterexample",
@@ -209,10 +210,94 @@ func init() {
 				}
 			}
 		}
+		// limits on an array property whose object also takes part in a composition: the definition Base puts ONE
+		// limit on `tags`, a later allOf / anyOf branch puts the OTHER limit on the same property.  Decoding into
+		// Base itself (or the anyOf branch type) must apply Base's own limit only; the composed position applies
+		// what the reference says.
+		type compCase struct {
+			mn, mx int // the decoded type's own limits
+		}
+		var compMeta []compCase
+		var compCases []*core.PCase
+		strs := func(n int) []any {
+			out := []any{}
+			for i := 0; i < n; i++ {
+				out = append(out, "s")
+			}
+			return out
+		}
+		for _, kw := range []string{"allOf", "anyOf"} {
+			for _, baseHasMin := range []bool{true, false} {
+				for _, viaRef := range []bool{true, false} {
+					tagsA := M{"type": "array", "items": M{"type": "string"}}
+					tagsB := M{"type": "array", "items": M{"type": "string"}}
+					own := compCase{}
+					if baseHasMin {
+						tagsA["minItems"], tagsB["maxItems"] = 2, 3
+						own.mn = 2
+					} else {
+						tagsA["maxItems"], tagsB["minItems"] = 3, 2
+						own.mx = 3
+					}
+					base := M{"type": "object", "properties": M{"tags": tagsA}, "required": []any{"tags"}}
+					later := M{"type": "object", "properties": M{"tags": tagsB}, "required": []any{"tags"}}
+					var first any = sgen.DeepCopy(base)
+					schema := M{"type": "object", "properties": M{"limited": nil}}
+					target := "RootLimited_0"
+					if viaRef {
+						first = M{"$ref": "#/$defs/Base"}
+						schema["$defs"] = M{"Base": base}
+						schema["properties"].(M)["base"] = M{"$ref": "#/$defs/Base"}
+						target = "Base"
+					} else if kw == "allOf" {
+						continue // an inline allOf branch has no type of its own to decode into
+					}
+					schema["properties"].(M)["limited"] = M{kw: []any{first, later}}
+					var docs []any
+					for n := 0; n <= 5; n++ {
+						docs = append(docs, M{"tags": strs(n)})
+					}
+					pc := baseCase("c07-composed-own-type", schema, docs, kw, fmt.Sprintf("baseHasMin=%v", baseHasMin), fmt.Sprintf("ref=%v", viaRef))
+					pc.DecodeType = target
+					compCases = append(compCases, pc)
+					compMeta = append(compMeta, own)
+					// the composed position itself, judged by the reference
+					var rdocs []any
+					for n := 0; n <= 5; n++ {
+						rdocs = append(rdocs, M{"limited": M{"tags": strs(n)}})
+					}
+					pcs = append(pcs, baseCase("c07-composed", sgen.DeepCopy(schema).(M), rdocs, string(PosOptional), "depth=1", "in-scope"))
+				}
+			}
+		}
+		fails := 0
+		cres := runCases(c, compCases)
+		for i, r := range cres {
+			if r.RunsJ == nil {
+				fails++
+				c.Fail("oracle", "array limits under composition: the program does not generate/compile or lacks the type "+r.Case.DecodeType+": "+r.Real.ErrMsg+r.CompileErr, replayOf(r, -1, nil), false)
+				continue
+			}
+			for n, rr := range r.RunsJ {
+				want := "ok"
+				if (compMeta[i].mn != 0 && n < compMeta[i].mn) || (compMeta[i].mx != 0 && n > compMeta[i].mx) {
+					want = "reject"
+				}
+				c.Eval(fmt.Sprintf("composed-own|%s|n=%d|%s", strings.Join(r.Case.Labels, ","), n, rr.Kind))
+				if rr.Kind != want {
+					fails++
+					if fails <= 3 {
+						c.Fail("oracle", fmt.Sprintf("decoding %d elements into %s (own limits min=%d max=%d; the other limit belongs to a later %s branch): %s, expected %s (%s)", n, r.Case.DecodeType, compMeta[i].mn, compMeta[i].mx, r.Case.Labels[0], rr.Kind, want, clip(rr.Msg, 120)),
+							replayOf(r, n, nil), false)
+					}
+				}
+			}
+		}
 		res := runCases(c, pcs)
-		fails := verdictOracle(c, res, "array length limits", func(r *core.PResult, i int) bool {
+		fails += verdictOracle(c, res, "array length limits", func(r *core.PResult, i int) bool {
 			return r.Case.Labels[2] == "K2-region"
 		})
+		res = append(res, cres...)
 		for _, r := range res {
 			if len(c.Samples) < 6 && len(r.DocJSON) > 1 {
 				c.Sample(M{"schema": string(r.SchemaJSON), "doc": r.DocJSON[1], "labels": r.Case.Labels})
@@ -223,7 +308,7 @@ func init() {
 	})
 
 	register("C08", func(c *engine.Ctx) {
-		c.Rule = "enum lists of every shape (strings, untyped ints, numbers, booleans, mixed, with null; typed string/integer/number/boolean) used inline (required/optional), as array items, via $ref (typed definitions) and with a default, x every member and non-members of every JSON type. Judged: verdict = reference; accepted values marshal back unchanged; string enums expose one constant per value with that value and distinct names. Distinct = distinct (shape, position, verdicts, document shape)."
+		c.Rule = "enum lists of every shape (strings, untyped ints, numbers, booleans, mixed, with null; typed string/integer/number/boolean; members of different JSON types that print alike — true/\"true\", 1/\"1\", null/\"<nil>\", 1.5/\"1.5\" — and repeated members) used inline (required/optional), as array items, via $ref (typed definitions) and with a default, x every member and non-members of every JSON type. Judged: verdict = reference; accepted values marshal back unchanged; string enums expose one constant per value with that value and distinct names. Distinct = distinct (shape, position, verdicts, document shape)."
 		c.Proofs([]string{"GJS.Props.C08"}, []string{
 			"GJS.Props.C08.string_enum_membership", "GJS.Props.C08.number_enum_membership", "GJS.Props.C08.bool_enum_membership",
 			"GJS.Props.C08.mixed_enum_membership_json", "GJS.Props.C08.wrapped_marshal_roundtrip", "GJS.Props.C08.plain_marshal_roundtrip",
@@ -242,8 +327,17 @@ func init() {
 			"typed-boolean": {"type": "boolean", "enum": []any{false}},
 			"one-string":    {"enum": []any{"only"}},
 			"long-strings":  {"type": "string", "enum": []any{"a", "b", "c", "d", "e", "f", "g", "h", "i", "j", "k", "l"}},
+			// members of different JSON types that PRINT alike, and repeated members
+			"text-twins-bool":  {"enum": []any{true, false, "true", "false"}},
+			"text-twins-int":   {"enum": []any{1, 2, "1", "auto"}},
+			"text-twins-null":  {"enum": []any{nil, "<nil>", "null"}},
+			"text-twins-float": {"enum": []any{1.5, "1.5", 2, "2"}},
+			"text-twins-rev":   {"enum": []any{"true", "1", true, 1}},
+			"repeated-strings": {"type": "string", "enum": []any{"x", "y", "x"}},
+			"repeated-ints":    {"enum": []any{1, 2, 1}},
 		}
-		probes := []any{"red", "green", "x y", "blue", "a", "only", "", "RED", 1, 2, 3, 10, -1, 0, 1.5, 2.5, 3.25, true, false, nil, []any{}, M{}, []any{"red"}, "b", "l", "m"}
+		probes := []any{"red", "green", "x y", "blue", "a", "only", "", "RED", 1, 2, 3, 10, -1, 0, 1.5, 2.5, 3.25, true, false, nil, []any{}, M{}, []any{"red"}, "b", "l", "m",
+			"true", "false", "1", "2", "auto", "<nil>", "null", "1.5", "x", "y"}
 		var pcs []*core.PCase
 		for _, name := range core.SortedKeys(shapes) {
 			sh := shapes[name]
@@ -267,7 +361,7 @@ func init() {
 					schema = M{"type": "object", "properties": M{"v": M{"$ref": "#/$defs/E"}}, "required": []any{"v"}, "$defs": M{"E": sh}}
 					mk = func(v any) any { return M{"v": v} }
 				case "default":
-					if name == "mixed" || name == "mixed-null" {
+					if name == "mixed" || name == "mixed-null" || strings.HasPrefix(name, "text-twins") {
 						continue // default on a struct-wrapped enum: ill-typed literal, known finding K4
 					}
 					withDef := M{}
